@@ -3,6 +3,7 @@
 // qualifier sets up to the bound (the complete space for that length), on a fresh Lexicon each: the chain result is
 // the node of get_qualified(union, T), its main variant is T (never a Qualified), and an empty set is refused.
 #include <algorithm>
+#include <set>
 #include <string>
 #include <vector>
 
@@ -218,6 +219,40 @@ namespace {
    }
 }
 
+   // Many (qualifiers, type) keys in ONE lookup table: 7 sets x 12 types, inserted in several orders, then all asked again.
+   void many_keys()
+   {
+      for (int order = 0; order < 6; ++order) {
+         if (not opt.mine(order)) continue;
+         World w;
+         std::vector<const ipr::Type*> types(w.T.begin(), w.T.end());
+         for (int i = 0; i < 6; ++i) types.push_back(&w.lex.get_rvalue_reference(*types[std::size_t(i)]));
+         const int NTY = int(types.size());
+         std::vector<std::pair<int, int>> keys;
+         for (int t = 0; t < NTY; ++t) for (int m = 1; m < 8; ++m) keys.push_back({ m, t });
+         switch (order) {
+         case 1: std::reverse(keys.begin(), keys.end()); break;
+         case 2: std::stable_sort(keys.begin(), keys.end(), [](auto& a, auto& b) { return a.first < b.first; }); break;
+         case 3: { std::vector<std::pair<int, int>> k2; for (std::size_t i = 0; i < keys.size(); ++i) k2.push_back(keys[(i * 37) % keys.size()]); keys = k2; break; }
+         case 4: { std::vector<std::pair<int, int>> k2; for (std::size_t i = 0, lo = 0, hi = keys.size() - 1; i < keys.size(); ++i) k2.push_back(i % 2 ? keys[hi--] : keys[lo++]); keys = k2; break; }
+         case 5: std::stable_sort(keys.begin(), keys.end(), [&](auto& a, auto& b) { return types[std::size_t(a.second)] > types[std::size_t(b.second)]; }); break;
+         default: break;
+         }
+         Hist h{ 0, { order }, 0, 0 };
+         std::vector<const ipr::Qualified*> got;
+         for (auto& [m, t] : keys) { got.push_back(&w.lex.get_qualified(w.q[m], *types[std::size_t(t)])); rep.count("transitions"); rep.count("states"); }
+         for (std::size_t i = 0; i < keys.size(); ++i) {
+            rep.count("transitions");
+            const ipr::Qualified& again = w.lex.get_qualified(w.q[keys[i].first], *types[std::size_t(keys[i].second)]);
+            if (&again != got[i]) { fail("C11:direct-unstable", h, "with " + std::to_string(keys.size()) + " qualified types in one Lexicon (insertion order #" + std::to_string(order) + "), asking again for key #" + std::to_string(i) + " returned a different node"); break; }
+            if (again.qualifiers() != w.q[keys[i].first] or &again.main_variant() != types[std::size_t(keys[i].second)]) { fail("C11:qualifiers-not-union", h, "a qualified type no longer reports its qualifiers / main variant after many insertions"); break; }
+         }
+         std::set<const void*> distinct(got.begin(), got.end());
+         if (distinct.size() != keys.size()) fail("C11:different-sets-same-node", h, "different (qualifiers, type) pairs share a node among " + std::to_string(keys.size()) + " keys");
+         rep.count("traces");
+      }
+   }
+
 int main(int argc, char** argv)
 {
    opt = vf::parse_options(argc, argv);
@@ -236,6 +271,7 @@ int main(int argc, char** argv)
    const int depth = opt.thorough() ? 5 : 3;
    enumerate(depth);
    direct_orders();
+   many_keys();
    if (opt.shard == 0) {
       rep.info("bounds", vf::JObj{}.num("max_chain_length", depth).num("qualifier_sets", 7).num("base_types", NT)
                             .str("deviations", "direct request before/after the chain; unrelated constructions interleaved or not").done());
